@@ -92,6 +92,30 @@ def install_probe():
         return r
     TF._set_delegate = _set_delegate
     TF._verif_probe = True
+    # which cancel() calls actually reached a RetryFuture (oracle 3 is about those)
+    from more_executors._impl import retry
+    RF = retry.RetryFuture
+    RE = retry.RetryExecutor
+    orig_cancel = RF.cancel
+    orig_submit_retry = RE.submit_retry
+
+    def cancel(self):
+        s = core.current()
+        if s is not None:
+            s.ev("rf-cancel", self._sim_serial)
+        r = orig_cancel(self)
+        if s is not None:
+            s.ev("rf-cancel-ret", self._sim_serial, r if isinstance(r, bool) else "?")
+        return r
+
+    def submit_retry(self, retry_policy, fn, *args, **kwargs):
+        f = orig_submit_retry(self, retry_policy, fn, *args, **kwargs)
+        s = core.current()
+        if s is not None:
+            s.ev("rf-new", f._sim_serial, getattr(fn, "tag", None), id(self) and 0)
+        return f
+    RF.cancel = cancel
+    RE.submit_retry = submit_retry
 
 
 def run(spec, env):
@@ -222,14 +246,7 @@ def check(spec, env):
                             out.append({"oracle": "no-normal-completion", "sig": "false-cancel-then-%s|%s" % (st[0], _cul(spec)),
                                         "msg": "submission %d: cancel() returned False while the callable was running, yet the future ended %s; layers %s"
                                                % (s, st[0], types)})
-        # (3) retry: no delegate submission after any cancel() has returned
-        for lvl in retry_delegate_levels:
-            for d in dsub:
-                if d[4] == lvl and d[5] == s and d[0] > ret:
-                    out.append({"oracle": "retry-after-cancel", "sig": "retry-resubmit-after-cancel|%s|%s" % (res, _cul(spec)),
-                                "msg": "submission %d: RetryExecutor (layer %d) submitted to its delegate (event %d) after a cancel() had returned %r (event %d); layers %s"
-                                       % (s, lvl, d[0], res, ret, types)})
-                    break
+        # (3) see below (per cancel() that reached a RetryFuture)
         # (4) the request reaches the innermost pending work
         if spec["base"]["kind"] == "spy":
             for label, (sseq, tag) in spy_sub.items():
@@ -254,7 +271,55 @@ def check(spec, env):
                     out.append({"oracle": "cancel-not-forwarded", "sig": "not-forwarded|%s|%s" % (res, cause),
                                 "msg": "submission %d: its delegate future %s was queued (not started, not done) during the whole cancel() call, "
                                        "which returned %r, but received no cancel(); layers %s" % (s, label, res, types)})
+    # (3) retry: no delegate submission for a future after any cancel() on it has returned
+    rf_tag = {}
+    for e in log:
+        if e[3] == "rf-new":
+            rf_tag.setdefault(e[4], e[5])
+    # a RetryFuture belongs to the retry layer whose delegate level it is submitted to; with
+    # several retry layers the tag is the same submission, so check every retry delegate level
+    for e in log:
+        if e[3] != "rf-cancel-ret":
+            continue
+        s = rf_tag.get(e[4])
+        if s is None:
+            continue
+        # which retry layer?  the one whose executor created this future: identify by creation
+        # order - futures of an inner retry layer are created by the outer layer's submit thread
+        for lvl in retry_delegate_levels:
+            later = [d for d in dsub if d[4] == lvl and d[5] == s and d[0] > e[0]]
+            if not later:
+                continue
+            # only the layer that owns this future: an outer RetryFuture's cancel must stop
+            # the outer layer; inner layers are re-submitted only by the outer one
+            owner = _owner_level(log, e[4], retry_delegate_levels)
+            if owner is not None and owner != lvl:
+                continue
+            out.append({"oracle": "retry-after-cancel", "sig": "retry-resubmit-after-cancel|%s|%s" % (e[5], _cul(spec)),
+                        "msg": "submission %d: RetryExecutor (layer %d) submitted to its delegate (event %d) after a cancel() on its future had returned %r (event %d); layers %s"
+                               % (s, lvl, later[0][0], e[5], e[0], types)})
+            break
     return out
+
+
+def _owner_level(log, serial, retry_levels):
+    """Retry layer (by delegate level) that created RetryFuture `serial`: the rf-new event is
+    logged while the creating submit() is still between its 'dsubmit' and 'dsubmit-ret' taps."""
+    open_levels = []
+    for e in log:
+        if e[3] == "dsubmit":
+            open_levels.append((e[2], e[4]))
+        elif e[3] == "dsubmit-ret":
+            if (e[2], e[4]) in open_levels:
+                open_levels.remove((e[2], e[4]))
+        elif e[3] == "rf-new" and e[4] == serial:
+            mine = [lvl for (tid, lvl) in open_levels if tid == e[2]]
+            # the innermost open submit of this thread is the retry executor's own (level = its index + 1)
+            if mine:
+                lv = min(mine)
+                return lv - 1 if (lv - 1) in retry_levels else None
+            return None
+    return None
 
 
 def check_comb(spec, env):
